@@ -313,7 +313,8 @@ def concrete_scene(spec, witness, seed=0, min_dim=1):
 
     rng = np.random.default_rng(seed)
     sc = (witness or {}).get("scalars", {})
-    shape = tuple(max(min_dim, int(sc.get(f"N{a}", 3))) if isinstance(sc.get(f"N{a}", 3), (int, float)) else 3 for a in "xyz")
+    # extents from a solver model may be astronomically large: replays run on at most 8 cells per axis
+    shape = tuple(min(8, max(min_dim, int(sc.get(f"N{a}", 3)))) if isinstance(sc.get(f"N{a}", 3), (int, float)) else 3 for a in "xyz")
     wa = witness_arrays_to_numpy(witness or {})
     cplx = bool(spec.get("complex"))
     if spec.get("nonuniform"):
